@@ -26,6 +26,8 @@ def scenarios(tier):
     scrubbed = base + [("cmd", "scrub", "-p", "full"), ("write", "d1", "late", 1000, 0), ("cmd", "sync")]
     sc += [("scrub-new-only-failing", Config(levels=1, ndisks=2), scrubbed, ("scrub", "-p", "new")),
            ("scrub-new-only-failing", Config(levels=2, ndisks=2), scrubbed, ("scrub", "-p", "new"))]
+    # a scrub that meets an ordinary file error (a file removed since the sync) and the injected I/O error in the SAME stripe
+    sc += [("scrub-fileerror", Config(levels=1, ndisks=2), base + adds + [("cmd", "sync"), ("rm", "d2", "B")], ("scrub", "-p", "full"))]
     sc += [("sync-adds-rehash", Config(levels=1, ndisks=2), base + [("cmd", "rehash")] + adds, ("sync",)),
            ("scrub-rehash", Config(levels=1, ndisks=2), base + adds + [("cmd", "sync"), ("cmd", "rehash")], ("scrub", "-p", "full"))]
     if True:
@@ -90,6 +92,10 @@ def other_stripes_view(c, skip):
 
 def fault_job(j):
     cfg, saved, cmd, cache, faults, clean_view, nstripes_order, seed = j
+    clean_rc = 0
+    if clean_view is not None:
+        clean_view = dict(clean_view)
+        clean_rc = clean_view.pop("__clean_rc__", 0)
     L = X.materialize(cfg, saved, seed)
     c0 = L.content()
     rule = ";".join("%s:%s:%d:%d" % (path, call, n, err) for (path, call, n, err, pos) in faults)
@@ -106,7 +112,7 @@ def fault_job(j):
         # a short read is an ordinary answer of the OS: the command must go on reading and end exactly like the fault-free run
         if not shorts:
             return dict(viols=[dict(kind="harness-fault-not-injected", where=where)], harness=True)
-        if res.rc != 0 or res.tags.get("error") or res.tags.get("parity_error"):
+        if res.rc != clean_rc or (clean_rc == 0 and (res.tags.get("error") or res.tags.get("parity_error"))):
             v.append(dict(kind="short-read-not-transparent", where=where, rc=res.rc, out=res.text()[-300:]))
         else:
             c1 = L.content()
@@ -149,7 +155,9 @@ def fault_job(j):
         if mine != want:
             diffpos = sorted(p for p in set(mine) | set(want) if mine.get(p) != want.get(p))
             v.append(dict(kind="other-stripes-not-processed-normally", where=where, stripes=diffpos[:6], write=is_write))
-    # repair path
+    # repair path (not judged when the array has a standing file error of its own: the fault-free run fails there too)
+    if clean_rc != 0:
+        return dict(viols=v, harness=False, rc=res.rc, tail=None, write=is_write)
     if cmd[0] == "sync":
         r2 = L.run("sync")
         if r2.rc != 0:
@@ -215,10 +223,11 @@ def run(ctx):
                         raise RuntimeError("base failed %r\n%s" % (op, r.text()))
                 saved = L0.save()
                 r = run_cmd(L0, cmd, cache, env={"VP_TRACE_READS": "1"})
-                if r.rc != 0:
+                if r.rc != 0 and not name.endswith("-fileerror"):
                     raise RuntimeError("reference run failed\n" + r.text())
                 c_after = L0.content()
                 clean_view = other_stripes_view(c_after, set())
+                clean_view["__clean_rc__"] = r.rc
                 L0.restore(saved)
                 c_before = L0.content()
                 # per file call lists
